@@ -31,7 +31,9 @@ WHAT = {
 
 def enumerate_scenarios(res, tag, trees, p1two, npatches, cfgs, work, with_reverse='FALSE'):
     out = os.path.join(work, tag + '.tlc')
-    st = tlc('MC_Out', constants={'Paths': PATHS_C, 'Trees': '<- ' + trees, 'P1Two': p1two, 'NPatches': npatches,
+    if trees == 'TreesAll' and p1two == 'TRUE':
+        with_reverse = 'FALSE'          # 72 trees x 420 x 20 patches x 4 direction pairs does not fit; -R is covered with the small trees
+    st = tlc('MC_Out', heap='10g', constants={'Paths': PATHS_C, 'Trees': '<- ' + trees, 'P1Two': p1two, 'NPatches': npatches,
                                   'Cfgs': '<- ' + cfgs, 'EmitCases': 'TRUE', 'WithReverse': with_reverse}, cfg_body=OUT_CFG, out=out, tag=tag)
     res.add_tlc(st, tag)
     return out, st
